@@ -44,9 +44,10 @@ where
         &mut error_flag,
     );
 
-    if error_flag != -1 {
-        back_substitution(&coeff_matrix, size, &rhs_vector, &mut solution);
+    if error_flag == -1 {
+        return Err(SolverError::SingularMatrix);
     }
+    back_substitution(&coeff_matrix, size, &rhs_vector, &mut solution);
     Ok(solution)
 }
 
